@@ -1372,7 +1372,9 @@ struct array : static_array<T, D, Alloc> {
 		} else if(this->num_elements() == other.extensions().num_elements()) {
 			reshape(other.extensions());
 			//  static_::operator=(other);
-			this->operator()() = std::forward<Range>(other);
+			if(this->num_elements() != 0) {  // without elements the array reports all-empty extensions, which need not be `other`'s
+				this->operator()() = std::forward<Range>(other);
+			}
 		} else {
 			operator=(static_cast<array>(std::forward<Range>(other)));
 		}
@@ -1389,7 +1391,9 @@ struct array : static_array<T, D, Alloc> {
 			//  static_::operator=(other);
 		} else if(this->num_elements() == other.extensions().num_elements()) {
 			reshape(other.extensions());
-			this->operator()() = other;
+			if(this->num_elements() != 0) {  // without elements the array reports all-empty extensions, which need not be `other`'s
+				this->operator()() = other;
+			}
 			//  static_::operator=(other);
 		} else {
 			operator=(static_cast<array>(std::forward<Range>(other)));
